@@ -574,6 +574,8 @@ class ExtendedIndexedOperand(Operand):
                 raw_post_byte |= 0x14
 
         elif self.left == "A" or self.left == "B" or self.left == "D":
+            if "+" in self.right or "-" in self.right:
+                raise OperandTypeError("[{}] invalid indexed expression".format(self.operand_string))
             if self.left == "A":
                 raw_post_byte |= 0x16
             if self.left == "B":
@@ -720,6 +722,8 @@ class IndexedOperand(Operand):
                 raw_post_byte |= 0x04
 
         elif self.left == "A" or self.left == "B" or self.left == "D":
+            if "+" in self.right or "-" in self.right:
+                raise OperandTypeError("[{}] invalid indexed expression".format(self.operand_string))
             raw_post_byte |= 0x80
             if self.left == "A":
                 raw_post_byte |= 0x06
